@@ -1077,6 +1077,18 @@ func MarkShared(pts []PointRec) {
 	}
 }
 
+// Jump moves the virtual clock forward by d nanoseconds as one transition of the calling
+// thread, wherever the scheduler places it: time passing *between* two steps of other
+// threads (a preempted goroutine, a slow lock) becomes an explorable event. The transition
+// is global (dependent on everything: any step may read the clock).
+func Jump(d int64) {
+	if !S.Active {
+		return
+	}
+	Point(&Op{Kind: OpCustom, Name: "ClockJump", Pred: func() bool { return true }})
+	AdvanceTo(S.Clock + d)
+}
+
 // SleepFor parks the caller until the virtual clock has advanced by d nanoseconds.
 func SleepFor(d int64) {
 	if !S.Active {
